@@ -5,6 +5,7 @@ package main
 import (
 	"fmt"
 	"sync"
+	"time"
 
 	"verif/harness/vh"
 )
@@ -21,6 +22,11 @@ type C04Job struct {
 	LazyBeh    []Behaviour `json:"lazy_beh"`
 	LazyMap    *Map        `json:"lazy_map"`
 	LazyRounds int         `json:"lazy_rounds"`
+	// 2-operation behaviours whose two queries OVERLAP: the first is held inside `next` while the second runs
+	Overlap [][2]int `json:"overlap"`
+	// behaviours with Dump/Load steps on two instances, realised through GET /dump and POST /load_dump
+	RestartBeh  []Behaviour `json:"restart_beh"`
+	RestartMaps []int       `json:"restart_maps"`
 }
 
 // Sweep: the same abstract behaviour replayed once per concrete value v of one dimension, the
@@ -51,6 +57,7 @@ type StepObs struct {
 	CQ  CQ   `json:"cq"`
 	O   COb  `json:"o"`
 	AO  AObs `json:"ao"`  // observation mapped back to abstract terms
+	R   AR   `json:"r"`   // the answer `next` was scripted to give
 	Sid int  `json:"sid"` // serial offered to this call's `next`
 	Ok  bool `json:"ok"`  // equals TLC's expectation
 }
@@ -75,7 +82,7 @@ type C04Rec struct {
 // equal TLC's (both count `next` answers from 1 within one replay).
 func toAbs(m *Map, o COb) AObs {
 	a := AObs{Res: o.Res, Id: 0, Ttls: o.Ttls, Cont: "orig", Idok: o.Idok, Owner: AQ{N: "-", T: "-", C: "-"}}
-	if o.Res == "hit" {
+	if o.Res == "hit" || o.Res == "joined" {
 		q, ok := m.abs(o.Owner)
 		if !ok {
 			q = AQ{N: "?" + q.N, T: "?" + q.T, C: "?" + q.C, F: q.F}
@@ -100,9 +107,13 @@ func replayOne(in *inst, b *Behaviour, m *Map) ([]StepObs, bool, int, error) {
 		if err != nil {
 			return nil, false, 0, err
 		}
-		er := in.exec(cq, st.R, serial)
+		r := st.R
+		if m.Resp != nil {
+			r = *m.Resp
+		}
+		er := in.exec(cq, r, serial)
 		o := observe(er, 5)
-		so := StepObs{Q: st.Q, CQ: cq, O: o, Sid: serial, AO: toAbs(m, o)}
+		so := StepObs{Q: st.Q, CQ: cq, O: o, R: r, Sid: serial, AO: toAbs(m, o)}
 		if o.Res == "miss" || o.Res == "bypass" {
 			if o.Res == "miss" {
 				serial++
@@ -112,8 +123,9 @@ func replayOne(in *inst, b *Behaviour, m *Map) ([]StepObs, bool, int, error) {
 			hits++
 		}
 		exp := st.O
-		so.Ok = exp.Res == so.AO.Res && (exp.Res != "hit" || (exp.Id == so.AO.Id && exp.Owner.N == so.AO.Owner.N &&
-			exp.Owner.T == so.AO.Owner.T && exp.Owner.C == so.AO.Owner.C && exp.Owner.F == so.AO.Owner.F && so.AO.Idok))
+		// (an answer without records carries neither serial nor flags: -1 = not observable)
+		so.Ok = exp.Res == so.AO.Res && (exp.Res != "hit" || ((exp.Id == so.AO.Id || so.AO.Id == -1) && exp.Owner.N == so.AO.Owner.N &&
+			exp.Owner.T == so.AO.Owner.T && exp.Owner.C == so.AO.Owner.C && (exp.Owner.F == so.AO.Owner.F || so.AO.Owner.F == -1) && so.AO.Idok))
 		if !so.Ok {
 			match = false
 		}
@@ -295,6 +307,41 @@ func runC04(j *C04Job) error {
 		return err
 	default:
 	}
+	for _, p := range j.Overlap {
+		m := &j.Maps[p[1]]
+		steps, match, err := overlapOne(&j.Behaviours[p[0]], m)
+		if err != nil {
+			return err
+		}
+		mu.Lock()
+		total++
+		if !match {
+			mism++
+		}
+		mu.Unlock()
+		if !match || j.Detail {
+			mc := *m
+			vh.Emit(C04Rec{Kind: "overlap", Beh: p[0], Map: p[1], Tag: "overlap:" + m.Tag, Steps: steps, Match: match, MapV: &mc})
+		}
+	}
+	if len(j.RestartBeh) > 0 {
+		hv, err := newHarvester()
+		if err != nil {
+			return err
+		}
+		for bi := range j.RestartBeh {
+			for _, mi := range j.RestartMaps {
+				rec, err := restartOne(bi, &j.RestartBeh[bi], &j.Maps[mi], hv)
+				if err != nil {
+					hv.in.close()
+					return err
+				}
+				rec.Step = mi
+				vh.Emit(rec)
+			}
+		}
+		hv.in.close()
+	}
 	if len(j.LazyBeh) > 0 {
 		hv, err := newHarvester()
 		if err != nil {
@@ -392,4 +439,145 @@ func runMass(in *inst, j *C04Job, ms Mass, total, mism, hits *int) error {
 		}
 	}
 	return nil
+}
+
+var overlapInst *inst
+
+// overlapOne: Exec(q1) is held inside `next`; Exec(q2) runs meanwhile (it either reaches `next` too or
+// waits inside the plugin); then the first, then the second is released. Events are logged in that order.
+func overlapOne(b *Behaviour, m *Map) ([]StepObs, bool, error) {
+	if len(b.Steps) != 2 {
+		return nil, false, fmt.Errorf("overlap needs a 2-operation behaviour")
+	}
+	if overlapInst == nil {
+		in, err := newInst(0, 1<<16)
+		if err != nil {
+			return nil, false, err
+		}
+		overlapInst = in
+	}
+	in := overlapInst
+	in.flush()
+	type call struct {
+		cq      CQ
+		r       AR
+		gate    chan struct{}
+		arrived chan struct{}
+		res     chan execResult
+	}
+	var calls [2]*call
+	for k := 0; k < 2; k++ {
+		cq, err := m.conc(b.Steps[k].Q)
+		if err != nil {
+			return nil, false, err
+		}
+		r := b.Steps[k].R
+		if m.Resp != nil {
+			r = *m.Resp
+		}
+		calls[k] = &call{cq: cq, r: r, gate: make(chan struct{}), arrived: make(chan struct{}), res: make(chan execResult, 1)}
+	}
+	start := func(k int) {
+		c := calls[k]
+		go func() {
+			c.res <- in.execCS(c.cq, c.r, k+1, func(cs *callScript) { cs.gate, cs.arrived = c.gate, c.arrived })
+		}()
+	}
+	start(0)
+	select {
+	case <-calls[0].arrived:
+	case <-time.After(2 * time.Second):
+		return nil, false, fmt.Errorf("overlap: the first query never reached next")
+	}
+	start(1)
+	select {
+	case <-calls[1].arrived:
+	case <-time.After(15 * time.Millisecond): // parked inside the plugin (or served without next)
+	}
+	out := make([]StepObs, 0, 2)
+	match := true
+	for k := 0; k < 2; k++ {
+		close(calls[k].gate)
+		var er execResult
+		select {
+		case er = <-calls[k].res:
+		case <-time.After(3 * time.Second):
+			return nil, false, fmt.Errorf("overlap: query %d did not return", k+1)
+		}
+		o := observe(er, 5)
+		so := StepObs{Q: b.Steps[k].Q, CQ: calls[k].cq, O: o, R: calls[k].r, Sid: k + 1, AO: toAbs(m, o)}
+		exp := b.Steps[k].O
+		so.Ok = (exp.Res == so.AO.Res && (exp.Res != "hit" || ((exp.Id == so.AO.Id || so.AO.Id == -1) && exp.Owner.N == so.AO.Owner.N &&
+			exp.Owner.T == so.AO.Owner.T && exp.Owner.C == so.AO.Owner.C && (exp.Owner.F == so.AO.Owner.F || so.AO.Owner.F == -1)))) ||
+			(exp.Res == "hit" && so.AO.Res == "miss") // overlapping equal questions may both miss
+		if !so.Ok {
+			match = false
+		}
+		out = append(out, so)
+	}
+	return out, match, nil
+}
+
+// restartOne: a behaviour with Exec / Dump / Load steps on two instances at abstract time 0.
+func restartOne(bi int, b *Behaviour, m *Map, hv *keyHarvester) (TraceRec, error) {
+	var rec TraceRec
+	for attempt := 0; attempt < 3; attempt++ {
+		w := newWorld(m, 0, hv, []int{1, 2})
+		w.base = time.Now()
+		kn := map[int]known{}
+		for si, st := range b.Steps {
+			switch st.A {
+			case "Exec":
+				r := st.R
+				if m.Resp != nil {
+					r = *m.Resp
+				}
+				if _, _, err := w.doExec(st.I, st.Q, r, kn); err != nil {
+					return rec, err
+				}
+			case "Dump":
+				body, err := w.doDump(st.I, true, true)
+				if err != nil {
+					return rec, err
+				}
+				if body == nil {
+					w.close()
+					return TraceRec{Kind: "trace", Beh: bi, Tag: "restart:" + m.Tag, Events: w.events, Notes: w.notes}, nil
+				}
+			case "Load":
+				if w.lastDump == nil {
+					return rec, fmt.Errorf("restart behaviour %d step %d: Load without dump", bi, si)
+				}
+				w.doLoad(st.J, w.lastDump, false)
+			default:
+				return rec, fmt.Errorf("restart behaviour %d step %d: %s", bi, si, st.A)
+			}
+		}
+		// finally every question of the behaviour is looked up on every instance (TLC judges the trace)
+		seenQ := map[AQ]bool{}
+		for _, st := range b.Steps {
+			if st.A != "Exec" || seenQ[st.Q] {
+				continue
+			}
+			seenQ[st.Q] = true
+			for _, i := range []int{1, 2} {
+				if _, ok := w.insts[i]; !ok {
+					continue
+				}
+				r := st.R
+				if m.Resp != nil {
+					r = *m.Resp
+				}
+				if _, _, err := w.doExec(i, st.Q, r, kn); err != nil {
+					return rec, err
+				}
+			}
+		}
+		w.close()
+		rec = TraceRec{Kind: "trace", Beh: bi, Tag: "restart:" + m.Tag, Events: w.events, Slow: w.slow, Notes: w.notes}
+		if !w.slow {
+			break
+		}
+	}
+	return rec, nil
 }
